@@ -15,6 +15,8 @@ import (
 	"strings"
 	"testing"
 
+	"golang.org/x/sys/unix"
+
 	"github.com/panjf2000/gnet/v2/internal/verifmc/mcsys"
 	"github.com/panjf2000/gnet/v2/internal/verifmc/sched"
 	"github.com/panjf2000/gnet/v2/internal/verifmc/seqmc"
@@ -315,6 +317,54 @@ func startupFaultWorld(loops int, reuseport bool) *world {
 	return w
 }
 
+// reuseportAcceptWorld: TCP with SO_REUSEPORT, where every loop accepts inline (eventloop.accept):
+// transient accept4 results (EAGAIN because another accepter won the race, EINTR, ECONNABORTED)
+// must have no visible effect.
+func reuseportAcceptWorld(et bool) *world {
+	w := newWorld("fault-reuseport-accept")
+	a := &unix.SockaddrInet4{Addr: [4]byte{127, 0, 0, 1}}
+	w.addr = fmt.Sprintf("tcp://127.0.0.1:%d", freeTCPPort(a, false))
+	w.opts = append(w.opts, WithReusePort(true), WithReuseAddr(true))
+	if et {
+		w.opts = append(w.opts, WithEdgeTriggeredIO(true))
+	}
+	w.deviate = func(site string, fd int, n int) []string {
+		if site == "accept4" {
+			return []string{"EAGAIN", "EINTR", "ECONNABORTED"}
+		}
+		return nil
+	}
+	w.onTraffic = echoTraffic
+	var fp *faultPeer
+	w.script = func(w *world) {
+		sched.SetSettle(6)
+		done := 0
+		fp = &faultPeer{p: w.newPeer(), msgs: [][]byte{echoMsg(1, 0, 5), echoMsg(1, 1, 9)}}
+		sched.Go("peer", func() {
+			defer func() { done++ }()
+			w.waitBoot()
+			fp.run()
+		})
+		w.ctl(&done, 1, nil)
+	}
+	w.checks = append(w.checks, checkEnd, func(w *world, out *sched.Outcome) (string, string) {
+		inj := ""
+		for _, e := range mcsys.L.Events {
+			if e.Inject != "" {
+				inj = e.Op + ":" + e.Inject
+			}
+		}
+		if !w.runDone || w.runErr != nil {
+			return fmt.Sprintf("after a transient %s the engine stopped serving (Run done=%v err=%v end=%s blocked=%v)", inj, w.runDone, w.runErr, out.End, out.Blocked), "fault:accept-not-transient:" + inj
+		}
+		if !fp.complete {
+			return fmt.Sprintf("after a transient %s the pending connection was not served: peer received %d bytes (eof=%v err=%v)", inj, len(fp.p.got), fp.p.eof, fp.p.rerr), "fault:accept-not-transient:" + inj
+		}
+		return "", ""
+	})
+	return w
+}
+
 func faultSchedConfigs() ([]sched.Config, func(string) *sched.Config) {
 	thorough := seqmc.Tier() == "thorough"
 	bounds := []sched.Bound{{PB: 0, DB: 0}, {PB: 0, DB: 1}, {PB: 0, DB: 2}, {PB: 1, DB: 1}}
@@ -329,6 +379,12 @@ func faultSchedConfigs() ([]sched.Config, func(string) *sched.Config) {
 			out = append(out, sched.Config{Property: "C18", Name: name, Bounds: bounds, Horizon: 40000, Deadline: seqmc.Deadline(), DelayBounded: true,
 				New: func() sched.Scenario { w := faultWorld(mode, big); w.name = name; return w }})
 		}
+	}
+	for _, et := range []bool{false, true} {
+		et := et
+		name := "fault-reuseport-accept/tcp/" + map[bool]string{false: "LT", true: "ET"}[et]
+		out = append(out, sched.Config{Property: "C18", Name: name, Bounds: []sched.Bound{{PB: 0, DB: 0}, {PB: 0, DB: 1}, {PB: 0, DB: 2}}, Horizon: 40000, Deadline: seqmc.Deadline(), DelayBounded: true, TolerateNondeterminism: true,
+			New: func() sched.Scenario { w := reuseportAcceptWorld(et); w.name = name; return w }})
 	}
 	for _, loops := range []int{1, 2} {
 		loops := loops
